@@ -10,6 +10,15 @@ pub fn replay_sampler2(id: &str, fl: &str, a: &[u64], words: &[u64]) -> Option<(
             Some((x.is_finite(), format!("StandardNormal.sample(words {:?}) = {:?}", words, x))) }
         "exp1" => { let mut rng = ScriptRng::new(words, 0x5eed); let x: f64 = rd::Exp1.sample(&mut rng);
             Some((x.is_finite() && x >= 0.0, format!("Exp1.sample(words {:?}) = {:?}", words, x))) }
+        "normal_tail_pos" | "normal_tail_neg" => {
+            // first word fixed by the unit (layer 0, |u| extreme), the decoded words are the tail words
+            let neg = id.ends_with("neg");
+            let w0: u64 = if neg { 0 } else { 0xffff_ffff_ffff_f000 };
+            let mut all = vec![w0]; all.extend_from_slice(words);
+            let mut rng = ScriptRng::new(&all, 0x5eed); let x: f64 = rd::StandardNormal.sample(&mut rng);
+            const R: f64 = 3.654152885361008796;
+            let ok = !x.is_nan() && (if neg { x <= -R } else { x >= R });
+            Some((ok, format!("StandardNormal.sample(words {:?}) = {:?} (tail branch, u {}; expected |x| >= R = {} with the sign of u)", all, x, if neg { "= -1" } else { "-> +1" }, R))) }
         _ => None,
     }
 }
